@@ -490,8 +490,9 @@ class Decryptor:
             if flts and flts[0] == Name(b"Crypt"):
                 dp = o.dict.get(b"DecodeParms")
                 dp0 = dp[0] if isinstance(dp, list) else dp
-                nm = (dp0 or {}).get(b"Name", Name(b"Identity")) if isinstance(dp0, dict) else Name(b"Identity")
-                if nm == Name(b"Identity"):
+                has_name = isinstance(dp0, dict) and b"Name" in dp0
+                nm = dp0[b"Name"] if has_name else Name(b"Identity")
+                if nm == Name(b"Identity") and (has_name or not getattr(self, "lenient_crypt_default", False)):
                     method = "Identity"
             return Stream(d, self._dec(o.raw, num, gen, method), o.offset)
         return o
